@@ -31,6 +31,17 @@ static RUNNING_TASKS: Lazy<DashMap<u64, u64>> = Lazy::new(DashMap::new);
 
 static CANCEL_TASKS: Lazy<DashSet<u64>> = Lazy::new(DashSet::new);
 
+// Results and waiters are process-wide, like the two sets above: every pool of the process takes
+// tasks from the same work-stealing queue, so the pool that runs a task need not be the one it was
+// submitted to (and is joined on).
+static RESULTS: Lazy<DashMap<u64, Result<Option<usize>, &'static str>>> = Lazy::new(DashMap::new);
+
+// task id -> (address of the pool the waiter waits on, its latch)
+#[allow(clippy::type_complexity)]
+static WAITS: Lazy<DashMap<u64, (usize, Arc<(Mutex<bool>, Condvar)>)>> = Lazy::new(DashMap::new);
+
+static NO_WAITS: Lazy<DashSet<u64>> = Lazy::new(DashSet::new);
+
 /// The coroutine pool impls.
 #[repr(C)]
 #[derive(Debug)]
@@ -56,11 +67,6 @@ pub struct CoroutinePool<'p> {
     keep_alive_time: AtomicU64,
     //阻滞器
     blocker: Arc<CondvarBlocker>,
-    //正在等待结果的
-    waits: DashMap<u64, Arc<(Mutex<bool>, Condvar)>>,
-    //任务执行结果
-    results: DashMap<u64, Result<Option<usize>, &'p str>>,
-    no_waits: DashSet<u64>,
 }
 
 impl Drop for CoroutinePool<'_> {
@@ -145,9 +151,6 @@ impl<'p> CoroutinePool<'p> {
             task_queue_lock: Mutex::new(()),
             keep_alive_time: AtomicU64::new(keep_alive_time),
             blocker: Arc::default(),
-            results: DashMap::new(),
-            waits: DashMap::default(),
-            no_waits: DashSet::default(),
         }
     }
 
@@ -243,12 +246,15 @@ impl<'p> CoroutinePool<'p> {
     fn do_clean(&mut self) {
         // clean up remaining wait tasks
         // collect first: `notify` removes from `waits`, which would deadlock under the iterator's lock
-        let task_ids: Vec<u64> = self.waits.iter().map(|r| *r.key()).collect();
+        let this = std::ptr::from_ref(self) as usize;
+        let task_ids: Vec<u64> = WAITS
+            .iter()
+            .filter(|r| r.value().0 == this)
+            .map(|r| *r.key())
+            .collect();
         for task_id in task_ids {
-            _ = self
-                .results
-                .insert(task_id, Err("The coroutine pool has stopped"));
-            self.notify(task_id);
+            _ = RESULTS.insert(task_id, Err("The coroutine pool has stopped"));
+            Self::notify(task_id);
         }
     }
 
@@ -297,7 +303,7 @@ impl<'p> CoroutinePool<'p> {
 
     /// Attempt to obtain task results with the given `task_id`.
     pub fn try_take_task_result(&self, task_id: u64) -> Option<Result<Option<usize>, &'p str>> {
-        self.results.remove(&task_id).map(|(_, r)| r)
+        RESULTS.remove(&task_id).map(|(_, r)| r)
     }
 
     /// clean the task result data.
@@ -306,7 +312,7 @@ impl<'p> CoroutinePool<'p> {
             return;
         }
         // a pending cancel request stays: the task must still be skipped when its turn comes
-        _ = self.no_waits.insert(task_id);
+        _ = NO_WAITS.insert(task_id);
     }
 
     /// Use the given `task_id` to obtain task results, and if no results are found,
@@ -320,7 +326,7 @@ impl<'p> CoroutinePool<'p> {
         wait_time: Duration,
     ) -> std::io::Result<Result<Option<usize>, &str>> {
         if let Some(r) = self.try_take_task_result(task_id) {
-            self.notify(task_id);
+            Self::notify(task_id);
             return Ok(r);
         }
         #[cfg(feature = "verif")]
@@ -341,11 +347,12 @@ impl<'p> CoroutinePool<'p> {
             // nobody will ever run the task or settle this waiter
             return Err(Error::other("The coroutine pool has stopped"));
         }
-        let arc = if let Some(arc) = self.waits.get(&task_id) {
-            arc.clone()
+        let arc = if let Some(entry) = WAITS.get(&task_id) {
+            entry.1.clone()
         } else {
             let arc = Arc::new((Mutex::new(true), Condvar::new()));
-            assert!(self.waits.insert(task_id, arc.clone()).is_none());
+            let this = std::ptr::from_ref(self) as usize;
+            assert!(WAITS.insert(task_id, (this, arc.clone())).is_none());
             arc
         };
         #[cfg(feature = "verif")]
@@ -353,7 +360,7 @@ impl<'p> CoroutinePool<'p> {
         // the task may have finished between the first look and the registration above,
         // in which case nobody will notify us: look again before blocking
         if let Some(r) = self.try_take_task_result(task_id) {
-            self.notify(task_id);
+            Self::notify(task_id);
             return Ok(r);
         }
         #[cfg(feature = "verif")]
@@ -368,7 +375,7 @@ impl<'p> CoroutinePool<'p> {
             .map_err(|e| Error::other(format!("{e}")))?,
         );
         if let Some(r) = self.try_take_task_result(task_id) {
-            self.notify(task_id);
+            Self::notify(task_id);
             return Ok(r);
         }
         Err(Error::new(ErrorKind::TimedOut, "wait timeout"))
@@ -479,12 +486,12 @@ impl<'p> CoroutinePool<'p> {
                 _ = CANCEL_TASKS.remove(&task_id);
                 warn!("Cancel task:{} successfully !", task_id);
                 // the task never runs, do not leave its waiter blocked until its timeout
-                if self.no_waits.contains(&task_id) {
-                    _ = self.no_waits.remove(&task_id);
+                if NO_WAITS.contains(&task_id) {
+                    _ = NO_WAITS.remove(&task_id);
                     return;
                 }
-                _ = self.results.insert(task_id, Err("The task was cancelled"));
-                self.notify(task_id);
+                _ = RESULTS.insert(task_id, Err("The task was cancelled"));
+                Self::notify(task_id);
                 return;
             }
             if let Some(co) = SchedulableCoroutine::current() {
@@ -492,24 +499,24 @@ impl<'p> CoroutinePool<'p> {
             }
             let (_, result) = task.run();
             _ = RUNNING_TASKS.remove(&task_id);
-            if self.no_waits.contains(&task_id) {
-                _ = self.no_waits.remove(&task_id);
+            if NO_WAITS.contains(&task_id) {
+                _ = NO_WAITS.remove(&task_id);
                 return;
             }
             #[cfg(feature = "verif")]
             crate::verif::pause("run.before_result_insert");
             assert!(
-                self.results.insert(task_id, result).is_none(),
+                RESULTS.insert(task_id, result).is_none(),
                 "The previous result was not retrieved in a timely manner"
             );
             #[cfg(feature = "verif")]
             crate::verif::pause("run.before_notify");
-            self.notify(task_id);
+            Self::notify(task_id);
         })
     }
 
-    fn notify(&self, task_id: u64) {
-        if let Some((_, arc)) = self.waits.remove(&task_id) {
+    fn notify(task_id: u64) {
+        if let Some((_, (_, arc))) = WAITS.remove(&task_id) {
             let (lock, cvar) = &*arc;
             let mut pending = lock.lock().expect("notify task failed");
             *pending = false;
